@@ -311,6 +311,7 @@ theorem ser_head : ∀ (j : Json) (lvl : Nat), ∃ a t, ser j lvl = a :: t ∧ v
   | .bool true, _ => by simp only [ser]; exact ⟨_, _, rfl, by simp [valStart]⟩
   | .bool false, _ => by simp only [ser]; exact ⟨_, _, rfl, by simp [valStart]⟩
   | .number n k, _ => by simp only [ser]; exact serNumber_head n k
+  | .numberX _, _ => by simp only [ser]; exact ⟨_, _, rfl, by simp [valStart, isDigit]⟩
   | .string s, _ => by simp only [ser, serString]; exact ⟨_, _, rfl, by simp [valStart]⟩
   | .array [], _ => by simp only [ser]; exact ⟨_, _, rfl, by simp [valStart]⟩
   | .array (v :: vs), lvl => by simp only [ser]; exact ⟨_, _, rfl, by simp [valStart]⟩
@@ -447,6 +448,7 @@ theorem rtV : ∀ (j : Json) (n lvl : Nat) (rest : List Nat) (f : Nat), wr n j =
     obtain ⟨⟨hn, hk⟩, hv⟩ := hw
     subst hk
     simp only [ser]; exact rt_number n f' v rest hn hv ht
+  | .numberX _, n, lvl, rest, f, hw, _, _ => by simp [wr] at hw
   | .string s, n, lvl, rest, f, hw, _, hf => by
     obtain ⟨f', rfl⟩ := fuel_pos hf
     simp only [wr, Bool.and_eq_true, decide_eq_true_eq] at hw
